@@ -89,8 +89,10 @@ def _do_cmd(command, timeout, **kwargs):
             os.killpg(os.getpgid(proc.pid), signal.SIGKILL)
             proc.communicate()
             LOG.debug("[%s] {timed out}", kwargs.get('cwd', os.getcwd()))
+            # Do not chain the TimeoutExpired exception: it carries the
+            # unmasked command line, which may include credentials.
             raise CommandError(
-                "Command %s timed out." % mask_pwd(command)) from err
+                "Command %s timed out." % mask_pwd(command)) from None
         except CommandError:
             raise
         except Exception as err:
